@@ -662,7 +662,7 @@ class StreamSeedUpdater(StreamUpdater):
             raise TypeError("replication_nr is not an int")
         if replication_nr < 0:
             raise ValueError("replication_nr < 0")
-        if self._stream_seeds[stream_id] is None:
+        if self._stream_seeds.get(stream_id) is None:
             self._fallback_stream_updater.update_seed(stream_id, stream,
                                                       replication_nr)
         else:
